@@ -198,9 +198,12 @@ static void snapshot(const struct cstl_hash * h)
 static size_t relocated(const struct cstl_hash * h)
 {
     size_t i, r = 0;
+    /* the table bit flips only in cstl_hash_resize, after it has forced the
+     * pending rehash to finish (it may re-initialise buckets afterwards) */
+    const int flipped = (h->bucket.cst ? 1 : 0) != (snap_cst ? 1 : 0);
     for (i = 0; i < snap_n; i++) {
         if (was_dirty[i]) {
-            if (i >= h->bucket.capacity || h->bucket.at == NULL
+            if (flipped || i >= h->bucket.capacity || h->bucket.at == NULL
                 || (h->bucket.at[i].cst ? 1 : 0) == (snap_cst ? 1 : 0)) {
                 r++;
             }
